@@ -1,10 +1,12 @@
 //! C01 — Khovanov homology equals the cube-of-resolutions definition.
 //! Part 1 (inputs x configurations) is in `part1.rs`, part 2 (orders) in `orders.rs`, part 3
-//! (schedules) in `sched_part.rs`; part 4 re-runs part 1 against the `old` engine (`c01old`).
+//! (schedules) in `sched_part.rs`; part 4 re-runs part 1 against the `old` engine (`c01old`);
+//! part 5 (cobordism calculus) in `cobcalc.rs`; part 6 (range-restricted builds) in `hrange.rs`.
 
 use vcore::{json, Run};
 
 mod cobcalc;
+mod hrange;
 mod orders;
 mod part1;
 mod sched_part;
@@ -19,6 +21,8 @@ fn main() {
     let old = run.run_subpart("c01old", "old-engine", run.budget_s() * 0.2);
     // ---- part 5: the cobordism calculus (stacking) against a topological reference -------------------
     let cc = cobcalc::cobcalc_part(&run);
+    // ---- part 6: range-restricted builds (set_h_range) against the cube, window by window -------------
+    let hr = hrange::hrange_part(&run);
     // ---- part 2: orders of the Bar-Natan machine (explicit-state) -------------------------------
     let o = orders::orders_part(&run);
     // ---- part 3: thread schedules of connect_edges / eliminate -----------------------------------
@@ -34,6 +38,7 @@ fn main() {
         "part2_orders": o.json,
         "part3_schedules": s.json,
         "part5_cobordism_calculus": cc,
+        "part6_range_restricted_builds": hr,
         "part4_old_engine": {"evidence": "evidence/parts/C01.old-engine.json", "violations": old["violations"], "wall_s": old["wall_s"], "library_evaluations": old["coverage"]["evaluations"], "diagrams": old["coverage"]["distinct_nontrivial"], "caps_hit": old["coverage"]["caps_hit"]},
         "exhaustive": true,
     });
